@@ -206,4 +206,19 @@ theorem c11_pack_info_offsets_are_source_offsets (cip count : Nat) :
       (List.range count).map (fun k => packInfosOffset cip count + k * packInfoBlockSize) :=
   gen_packOffsets cip count
 
+/-- **"Missing" is decided where the source decides it**: past the bound on pack ids, `containerGetPack` is
+    `Container::_get_pack` as translated from `reader/jubako.rs` on every run, applied to the model's manifest
+    lookup and locator chain: not listed in the manifest ⇒ unknown; listed but not found by any locator ⇒ missing,
+    with the pack info (uuid, recorded location) of the manifest; found ⇒ handed over. -/
+theorem c11_get_pack_is_source_get_pack (fs : FS) (c : ContainerView) (packId : Nat) :
+    containerGetPack fs c packId =
+      (if packId ≥ (((c.infos.filter (fun i => i.kind ≠ .directory)).map (·.packId)).foldl max 0) + 1 then .ok .unknown
+       else
+        (Generated.containerGetPackInner
+          (fun id => (c.infos.filter (fun i => i.kind ≠ .directory)).find? (fun i => i.packId == id))
+          (fun info => (locate fs c.entryFile c.entryPacks info.uuid (locationString info.location)).map'
+            (fun o => o.map (bytesOfLocated fs)))
+          (fun b => Outcome.ok b) packId).map' lookupOfSrc) :=
+  gen_containerGetPack fs c packId
+
 end Jubako
